@@ -145,6 +145,11 @@ def run(ctx, res):
            b'..\xff/foobar/x', b'\xc3/..', b'\x80../secret/x', b'/\xff', b'\xfe\xff/' + os.path.join(sib, 'x').encode(), b'lib/\xffinc',
            b'.\xc0\xae/secret/x', b'\xe0\x80.\xe0\x80./secret/x']
     plan += [(rb, lp) for rb in raw for lp in (None, 'lib/?.lua', '?')]
+    # names a shell or os.path.expanduser would expand (HOME is pointed at the directory of canaries while require() is exercised)
+    plan += [(r_, lp) for r_ in ('~', '~/x', '~/inc', '~/init', '~root/x', 'x/~', '~/lib/inc', '$HOME/x', '${HOME}/x', '%HOME%/x')
+             for lp in (None, '?', '?.lua;lib/?.lua', 'ENV')]
+    saved_home_req = os.environ.get('HOME')
+    os.environ['HOME'] = outside
     for r, lp in plan:
         rbytes = r if isinstance(r, bytes) else r.encode()
         r = r.decode('utf-8', 'surrogateescape') if isinstance(r, bytes) else r
@@ -200,6 +205,10 @@ def run(ctx, res):
         expect.append(('cands', list(rec2.probed), found))
         cases.append({'op': 'reqcand', 'require': r, 'lua_path': eff})
         res.count('require:' + status.split(' ')[0])
+    if saved_home_req is None:
+        os.environ.pop('HOME', None)
+    else:
+        os.environ['HOME'] = saved_home_req
     # ---- os.path vs the path model
     alpha = ['a', 'b', '.', '..', '/', '//', '']
     for _ in range(ctx.budget(1500, 30000)):
